@@ -78,7 +78,7 @@ Definition rules_ok (cfg : srvcfg) (c : conn) (t : msg) (sc : script) : bool :=
   | Tattach_ fid afid un _ num =>
     negb (fid =? c_NOFID) && negb (is_valid c fid)
     && match lookup_user (c_dotu c) num un with Some _ => true | None => false end
-    && ((afid =? c_NOFID) || is_valid c afid || (afid =? fid))   (* afid = fid finds the fid just created: accepted as written *)
+    && ((afid =? c_NOFID) || is_valid c afid)   (* the fid being created is not a valid afid: FidGet does not see it *)
     && (if s_auth cfg then match sc_authcheck sc with None => true | Some _ => false end else true)
   | Twalk_ fid nf names =>
     match fget (c_fids c) fid with
